@@ -173,6 +173,18 @@ def run_case(case, ctx):
                     hs[step["i"] % len(hs)].level = step["level"]
             elif k == "outline":
                 toc.outline_level = step["level"]
+            elif k == "reload":
+                # what a user does: save (optionally indented), open again, refresh the table of contents
+                from odfdo import Document
+
+                buf = io.BytesIO()
+                doc.save(buf, pretty=bool(step.get("pretty")))
+                buf.seek(0)
+                doc = Document(buf)
+                tocs = doc.body.get_tocs()
+                ctx.check(len(tocs) == 1, ("C20", "reload", "toc-count"), f"{len(tocs)} TOC after save+reload", case)
+                toc = tocs[0]
+                ctx.count("reload:" + ("pretty" if step.get("pretty") else "plain"))
     if n_fill == 0:
         with ctx.guard(("C20", "fill", "exception"), case):
             toc.fill()
@@ -205,6 +217,8 @@ def run_shard(ctx):
         st.fixed_dictionaries({"k": st.just("remove"), "i": st.integers(0, 30)}),
         st.fixed_dictionaries({"k": st.just("level"), "i": st.integers(0, 30), "level": st.integers(1, 10)}),
         st.fixed_dictionaries({"k": st.just("outline"), "level": st.integers(0, 10)}),
+        st.fixed_dictionaries({"k": st.just("reload"), "pretty": st.booleans()}),
+        st.fixed_dictionaries({"k": st.just("reload"), "pretty": st.just(True)}),
     )
     cases = st.fixed_dictionaries({
         "items": st.lists(st.one_of(heading, heading, para), max_size=25),
